@@ -12,3 +12,10 @@ add(
     "Trusts CPython, numpy, Hypothesis and vf/lang.py (reference evaluator). Tolerance 1e-8+1e-6 rel. Cases whose oracle leaves an op's numeric domain are discarded and counted.",
     "DESIGN.md section 3 C01",
 )
+add(
+    "C04",
+    "property-based testing: generated (f, substitution map[, second map]) cases with deliberately interacting names vs. the reference evaluator's simultaneous substitution; exhaustive over each case's integer input space",
+    "Bounded exploration: f from the generated term language built under eager/lazy/reflect/normalize, substitution maps with numbers, index tensors (over f's own and key names), variables (fresh, colliding, swapped, diagonal), slices and expressions, applied under eager/lazy/reflect, also chained; value and inputs compared with the oracle at every point of the finite input space.",
+    "Trusts vf/lang.py (oracle evaluates all values in the caller's environment first). Gaussian/Delta targets are covered by C12/C14 instead.",
+    "DESIGN.md section 3 C04",
+)
